@@ -3,6 +3,8 @@ package main
 import (
 	"bytes"
 	"encoding/json"
+	"sync"
+	"sync/atomic"
 	"flag"
 	"fmt"
 	"math/rand"
@@ -113,6 +115,24 @@ func (r *rep) iter(tr *tracer.T, op m.Op) {
 	tr.Emit(map[string]any{"ev": "iter", "rep": r.id, "op": op, "chunks": chunks})
 }
 
+// iter2 : two lazy range sequences are created before either is consumed, then consumed in
+// reverse order (IterateRange streams are consumed long after Lookup returned).
+func (r *rep) iter2(tr *tracer.T, op1, op2 m.Op) {
+	res1, err := r.f.Lookup(fsm.IteratorRequest{RangeOp: op1.RangePB()})
+	if err != nil {
+		die("iter: %v", err)
+	}
+	res2, err := r.f.Lookup(fsm.IteratorRequest{RangeOp: op2.RangePB()})
+	if err != nil {
+		die("iter: %v", err)
+	}
+	var c1, c2 []m.Resp
+	collectSeq(res2, func(x *regattapb.ResponseOp_Range) { c2 = append(c2, m.RangeResp(x)) })
+	collectSeq(res1, func(x *regattapb.ResponseOp_Range) { c1 = append(c1, m.RangeResp(x)) })
+	tr.Emit(map[string]any{"ev": "iter", "rep": r.id, "op": op1, "chunks": c1})
+	tr.Emit(map[string]any{"ev": "iter", "rep": r.id, "op": op2, "chunks": c2})
+}
+
 func (r *rep) rotxn(tr *tracer.T, c m.Cmd) {
 	req := &regattapb.TxnRequest{Table: []byte("tbl")}
 	t := c.TxnPB()
@@ -146,7 +166,7 @@ func fullRange() m.Op {
 
 // ---------------------------------------------------------------- histories
 
-func tableHist(tr *tracer.T, rng *rand.Rand, nOps int, class int) {
+func tableHist(tr *tracer.T, rng *rand.Rand, nOps int, class int, mix string) {
 	tr.Emit(map[string]any{"ev": "reset"})
 	srt := fsm.RecoveryTypeSnapshot
 	if rng.Intn(2) == 0 {
@@ -155,10 +175,19 @@ func tableHist(tr *tracer.T, rng *rand.Rand, nOps int, class int) {
 	r := newRep(1, srt)
 	defer r.close()
 	p := gen.NewPool(rng, 4+rng.Intn(8), class)
+	p.Mix = mix
 	idx := uint64(0)
+	wr := 55
+	if mix == "read" {
+		wr = 25
+	}
 	for i := 0; i < nOps; i++ {
-		switch x := rng.Intn(100); {
-		case x < 55:
+		x := rng.Intn(100)
+		if x >= wr && x < 55 {
+			x = 55 + rng.Intn(28) // lookup or iter instead of a write
+		}
+		switch {
+		case x < wr:
 			n := 1 + rng.Intn(4)
 			if rng.Intn(3) == 0 {
 				n = 1
@@ -176,10 +205,12 @@ func tableHist(tr *tracer.T, rng *rand.Rand, nOps int, class int) {
 				ents = append(ents, logEntry{I: idx, LI: li, C: p.Cmd(2)})
 			}
 			r.update(tr, ents)
-		case x < 75:
+		case x < 75 && mix != "txn":
 			r.lookup(tr, p.ReadOp())
-		case x < 83:
+		case x < 79 && mix != "txn":
 			r.iter(tr, p.ReadOp())
+		case x < 83 && mix != "txn":
+			r.iter2(tr, p.ReadOp(), p.ReadOp())
 		case x < 93:
 			r.rotxn(tr, p.Txn(true))
 		case x < 97:
@@ -208,8 +239,7 @@ func snapshotBytes(r *rep) (any, func() []byte) {
 
 // tableConverge : one log, several replicas cutting it differently, with
 // reopen and snapshot transfers (C03, C08 content fidelity).
-func tableConverge(tr *tracer.T, rng *rand.Rand, logLen int, class int) {
-	tr.Emit(map[string]any{"ev": "reset"})
+func randomLog(rng *rand.Rand, logLen int, class int) ([]logEntry, *gen.Pool) {
 	p := gen.NewPool(rng, 4+rng.Intn(6), class)
 	var log []logEntry
 	idx := uint64(0)
@@ -224,6 +254,12 @@ func tableConverge(tr *tracer.T, rng *rand.Rand, logLen int, class int) {
 		}
 		log = append(log, logEntry{I: idx, LI: li, C: p.Cmd(2)})
 	}
+	return log, p
+}
+
+func tableConverge(tr *tracer.T, rng *rand.Rand, log []logEntry, p *gen.Pool) {
+	tr.Emit(map[string]any{"ev": "reset"})
+	logLen := len(log)
 	nrep := 2 + rng.Intn(2)
 	reps := make([]*rep, nrep)
 	pos := make([]int, nrep) // number of log entries applied
@@ -302,7 +338,7 @@ type transition struct {
 	} `json:"batch"`
 }
 
-func tableReplay(tr *tracer.T, line []byte, n int) {
+func tableReplay(tr *tracer.T, line []byte, n int, reads int) {
 	var t transition
 	if err := json.Unmarshal(line, &t); err != nil {
 		die("bad transition: %v", err)
@@ -328,6 +364,205 @@ func tableReplay(tr *tracer.T, line []byte, n int) {
 	r.update(tr, ents)
 	r.lookup(tr, fullRange())
 	r.index(tr)
+	if reads > 0 {
+		// C09: reads around the keys of this state, every limit relative to the number of matches
+		rng := rand.New(rand.NewSource(int64(n)))
+		p := &gen.Pool{R: rng}
+		seen := map[string]bool{}
+		for _, kv := range t.From {
+			if !seen[string(kv.K)] {
+				seen[string(kv.K)] = true
+				p.Keys = append(p.Keys, kv.K)
+			}
+		}
+		for _, k := range [][]byte{{0}, {97}, {97, 0}, {255}, {255, 255}} {
+			if !seen[string(k)] {
+				seen[string(k)] = true
+				p.Keys = append(p.Keys, k)
+			}
+		}
+		for i := 0; i < reads; i++ {
+			op := p.ReadOp()
+			op.Limit = int64(rng.Intn(len(t.From) + 2))
+			if i%2 == 0 {
+				r.lookup(tr, op)
+			} else {
+				r.iter(tr, op)
+			}
+		}
+	}
+}
+
+// tableConc : one writer applies updates while reader goroutines issue read-only transactions,
+// unary range reads and streamed range reads against the same real FSM (C02 atomic visibility,
+// C09 point-in-time view).  Readers record s = updates completed at invocation and
+// e = updates started at return; events are emitted after the section, updates first.
+func tableConc(tr *tracer.T, rng *rand.Rand, nUpd int) {
+	tr.Emit(map[string]any{"ev": "reset"})
+	r := newRep(1, fsm.RecoveryTypeSnapshot)
+	defer r.close()
+	keys := [][]byte{{'a'}, {'a', 0}, {'b'}, {'b', 255}, {'c'}}
+	nk := 2 + rng.Intn(4)
+	keys = keys[:nk]
+	// initial content
+	init := m.Cmd{T: "PUTB"}
+	for _, k := range keys {
+		init.KVs = append(init.KVs, m.KV{K: k, V: []byte{0}})
+	}
+	r.update(tr, []logEntry{{I: 1, LI: -1, C: init}})
+	tr.Emit(map[string]any{"ev": "rec_start"})
+	var started, completed atomic.Int64
+	var mu sync.Mutex
+	var revs []map[string]any
+	stop := make(chan struct{})
+	var wg sync.WaitGroup
+	readOp := func(k []byte) m.Op { return m.Op{T: "range", K: k} }
+	for g := 0; g < 3; g++ {
+		wg.Add(1)
+		go func(g int) {
+			defer wg.Done()
+			lr := rand.New(rand.NewSource(int64(g) + 77))
+			for {
+				select {
+				case <-stop:
+					return
+				default:
+				}
+				switch lr.Intn(3) {
+				case 0:
+					c := m.Cmd{T: "TXN"}
+					if lr.Intn(2) == 0 {
+						c.Cmp = []m.Cmp{{K: keys[0], Res: "NOT_EQUAL", HasVal: true, Val: []byte{250}}}
+					}
+					for _, k := range keys {
+						c.Succ = append(c.Succ, readOp(k))
+					}
+					c.Fail = []m.Op{readOp(keys[0])}
+					req := &regattapb.TxnRequest{Table: []byte("tbl")}
+					t := c.TxnPB()
+					req.Compare, req.Success, req.Failure = t.Compare, t.Success, t.Failure
+					s0 := completed.Load()
+					res, err := r.f.Lookup(req)
+					e0 := started.Load()
+					if err != nil {
+						die("rotxn: %v", err)
+					}
+					x := res.(*regattapb.TxnResponse)
+					mu.Lock()
+					revs = append(revs, map[string]any{"ev": "rotxn_at", "rep": 1, "c": c, "ok": x.Succeeded, "rs": m.RespsFromPB(x.Responses), "s": s0, "e": e0})
+					mu.Unlock()
+				case 1:
+					op := fullRange()
+					s0 := completed.Load()
+					res, err := r.f.Lookup(op.RangePB())
+					e0 := started.Load()
+					if err != nil {
+						die("lookup: %v", err)
+					}
+					mu.Lock()
+					revs = append(revs, map[string]any{"ev": "lookup_at", "rep": 1, "op": op, "r": m.RangeResp(res.(*regattapb.ResponseOp_Range)), "s": s0, "e": e0})
+					mu.Unlock()
+				default:
+					op := fullRange()
+					s0 := completed.Load()
+					res, err := r.f.Lookup(fsm.IteratorRequest{RangeOp: op.RangePB()})
+					if err != nil {
+						die("iter: %v", err)
+					}
+					var chunks []m.Resp
+					collectSeq(res, func(x *regattapb.ResponseOp_Range) { chunks = append(chunks, m.RangeResp(x)) })
+					e0 := started.Load()
+					mu.Lock()
+					revs = append(revs, map[string]any{"ev": "iter_at", "rep": 1, "op": op, "chunks": chunks, "s": s0, "e": e0})
+					mu.Unlock()
+				}
+			}
+		}(g)
+	}
+	// the writer: every update rewrites ALL keys to one new value inside a single transaction,
+	// so every state that ever exists has all keys equal
+	for u := 0; u < nUpd; u++ {
+		v := []byte{byte(1 + u%200)}
+		c := m.Cmd{T: "TXN"}
+		for _, k := range keys {
+			c.Succ = append(c.Succ, m.Op{T: "put", K: k, V: v})
+		}
+		if u%7 == 3 { // sometimes delete everything but the first key, in the same transaction
+			c.Succ = append(c.Succ, m.Op{T: "del", K: keys[1], End: m.End{Has: true, B: []byte{0}}})
+		}
+		started.Add(1)
+		r.update(tr, []logEntry{{I: uint64(u + 2), LI: -1, C: c}})
+		completed.Add(1)
+	}
+	close(stop)
+	wg.Wait()
+	// keep the validated set bounded: the reads that overlapped an update first
+	n := 0
+	for _, e := range revs {
+		if e["s"].(int64) != e["e"].(int64) {
+			tr.Emit(e)
+			n++
+		}
+	}
+	for _, e := range revs {
+		if n >= 400 {
+			break
+		}
+		if e["s"].(int64) == e["e"].(int64) {
+			tr.Emit(e)
+			n++
+		}
+	}
+}
+
+// tableBigScan : C09 size cuts. Pairs of 0.7-2 MiB so that the ~4 MiB message cut falls on the
+// first, a middle and the last pair; then streamed and unary reads with all bounds / limits.
+func tableBigScan(tr *tracer.T, rng *rand.Rand, witness bool) {
+	tr.Emit(map[string]any{"ev": "reset"})
+	r := newRep(1, fsm.RecoveryTypeSnapshot)
+	defer r.close()
+	sizes := []int{2 << 20, (2 << 20) - 1, 1536 * 1024, 1 << 20, 700 * 1024, 3, 0, (2 << 20) - 600, 1300 * 1024}
+	nk := 4 + rng.Intn(7)
+	var keys [][]byte
+	idx := uint64(0)
+	for i := 0; i < nk; i++ {
+		k := []byte{'k', byte('a' + i)}
+		if rng.Intn(4) == 0 {
+			k = append(k, 0)
+		}
+		keys = append(keys, k)
+		v := make([]byte, sizes[rng.Intn(len(sizes))])
+		for j := range v {
+			v[j] = byte(i*31 + j)
+		}
+		idx++
+		r.update(tr, []logEntry{{I: idx, LI: -1, C: m.Cmd{T: "PUT", K: k, V: v}}})
+	}
+	p := &gen.Pool{R: rng, Keys: keys}
+	for i := 0; i < 14; i++ {
+		op := fullRange()
+		if i > 3 {
+			op = p.ReadOp()
+			if !op.End.Has {
+				op.End = m.End{Has: true, B: []byte{0}}
+			}
+		}
+		switch i % 4 {
+		case 1:
+			op.Limit = int64(1 + rng.Intn(nk+1))
+		case 2:
+			op.KeysOnly = i%8 == 2
+			op.CountOnly = !op.KeysOnly
+		}
+		r.iter(tr, op)
+		r.lookup(tr, op)
+	}
+	if witness {
+		// directed witness of known finding DelPrevSizeCut (C01): range delete with prev_kv over > 4 MiB
+		idx++
+		r.update(tr, []logEntry{{I: idx, LI: -1, C: m.Cmd{T: "DEL", K: []byte{'k'}, End: m.End{Has: true, B: []byte{0}}, Prev: true, Count: true}}})
+		r.lookup(tr, fullRange())
+	}
 }
 
 func init() {
@@ -340,10 +575,47 @@ func init() {
 		out := fs.String("out", "trace.ndjson", "trace file")
 		only := fs.Int("only", -1, "run only behaviour #k (replay)")
 		in := fs.String("in", "", "file of TLC-generated transitions (mode replay)")
+		mix := fs.String("mix", "", "operation mix: '' | txn | read")
+		reads := fs.Int("reads", 0, "mode replay: number of extra reads per transition")
+		bigEvery := fs.Int("bigevery", 25, "every n-th behaviour uses values of 0.7-2 MiB")
+		forceClass := fs.Int("class", -1, "force the key/value class of every behaviour (1 = long keys)")
 		_ = fs.Parse(args)
 		tr, err := tracer.New(*out)
 		if err != nil {
 			die("%v", err)
+		}
+		if *mode == "convlog" { // TLC-generated logs, driver-chosen cuts / reopen / snapshot points
+			data, err := os.ReadFile(*in)
+			if err != nil {
+				die("%v", err)
+			}
+			for b, line := range bytes.Split(bytes.TrimSpace(data), []byte("\n")) {
+				if *only >= 0 && b != *only {
+					continue
+				}
+				var x struct {
+					Log []struct {
+						I  uint64 `json:"i"`
+						C  m.Cmd  `json:"c"`
+						LI int64  `json:"li"`
+					} `json:"log"`
+				}
+				if err := json.Unmarshal(line, &x); err != nil {
+					die("bad log: %v", err)
+				}
+				var lg []logEntry
+				for _, e := range x.Log {
+					lg = append(lg, logEntry{I: e.I, LI: e.LI, C: e.C})
+				}
+				rng := rand.New(rand.NewSource(*seed*1000003 + int64(b)))
+				start := tr.Lines() + 1
+				tableConverge(tr, rng, lg, gen.NewPool(rng, 4, 0))
+				fmt.Printf("BEHAVIOUR %d lines %d-%d class 8\n", b, start, tr.Lines())
+			}
+			if err := tr.Close(); err != nil {
+				die("%v", err)
+			}
+			return 0
 		}
 		if *mode == "replay" {
 			data, err := os.ReadFile(*in)
@@ -355,7 +627,7 @@ func init() {
 					continue
 				}
 				start := tr.Lines() + 1
-				tableReplay(tr, line, b)
+				tableReplay(tr, line, b, *reads)
 				fmt.Printf("BEHAVIOUR %d lines %d-%d class 9\n", b, start, tr.Lines())
 			}
 			if err := tr.Close(); err != nil {
@@ -372,15 +644,23 @@ func init() {
 			switch {
 			case b%10 == 7:
 				class = 1 // long keys
-			case b%25 == 13:
+			case b%*bigEvery == *bigEvery/2:
 				class = 2 // big values
+			}
+			if *forceClass >= 0 {
+				class = *forceClass
 			}
 			start := tr.Lines() + 1
 			switch *mode {
 			case "hist":
-				tableHist(tr, rng, *ops, class)
+				tableHist(tr, rng, *ops, class, *mix)
 			case "converge":
-				tableConverge(tr, rng, *ops, class)
+				lg, p := randomLog(rng, *ops, class)
+				tableConverge(tr, rng, lg, p)
+			case "conc":
+				tableConc(tr, rng, *ops)
+			case "bigscan":
+				tableBigScan(tr, rng, *mix == "witness")
 			default:
 				die("bad mode")
 			}
